@@ -9,6 +9,7 @@ import (
 	"time"
 
 	"go.brendoncarroll.net/p2p"
+	"go.brendoncarroll.net/p2p/p/mbapp"
 
 	"verifmc/evid"
 	"verifmc/explore"
@@ -16,6 +17,7 @@ import (
 	"verifmc/stacks"
 	"verifmc/vrt"
 	"verifmc/vrt/vctx"
+	"verifmc/vrt/vtime"
 )
 
 const bufCap = 8
@@ -59,10 +61,11 @@ type cfg struct {
 	closer   bool
 	cancel   bool // cancel asker A0's context at some point
 	deadline bool // askers use a 5s virtual deadline instead of Background
+	forge    bool // mbapp only: a third party sends a reply carrying the ask's group id
 }
 
 func (c cfg) name() string {
-	return fmt.Sprintf("%s-a%d-s%d-resp%v-close%v-cancel%v-dl%v", c.stack.Kind, c.askers, c.servers, c.respLen, c.closer, c.cancel, c.deadline)
+	return fmt.Sprintf("%s-a%d-s%d-resp%v-close%v-cancel%v-dl%v-forge%v", c.stack.Kind, c.askers, c.servers, c.respLen, c.closer, c.cancel, c.deadline, c.forge)
 }
 
 func reqPayload(tag int) []byte { return []byte{0xC0 + byte(tag), byte(tag), 0x11, 0x22, 0x33} }
@@ -148,6 +151,21 @@ func scenario(c cfg, pb int) *explore.Scenario {
 				if err != nil {
 					res.Err = err.Error()
 				}
+			})
+		}
+		if c.forge {
+			vrt.Go("forger", func() {
+				vrt.PointAlways("forge reply")
+				hdr := mbapp.Header(make([]byte, mbapp.HeaderSize))
+				hdr.SetIsAsk(true)
+				hdr.SetIsReply(true)
+				hdr.SetCounter(1)
+				hdr.SetOriginTime(mbapp.NewPhaseTime32(vtime.Now().UTC(), time.Millisecond))
+				hdr.SetPartIndex(0)
+				hdr.SetPartCount(1)
+				hdr.SetTotalSize(bufCap)
+				hdr.SetTimeout(60000)
+				st.Raw.Tell(bg, 1, p2p.IOVec{[]byte(hdr), []byte("FORGED!!")})
 			})
 		}
 		if c.cancel {
@@ -312,6 +330,10 @@ func main() {
 		if k == "mbapp" || k == "mbapp-mux" {
 			// multi-part request/response: response longer than one inner packet
 			cfgs = append(cfgs, cfg{stack: stacks.Config{Kind: k, InnerMTU: 28, MTU: 200}, askers: 1, servers: 1, respLen: []int{bufCap}})
+		}
+		if k == "mbapp" {
+			// the asked server never answers; a third party forges a reply with the ask's id
+			cfgs = append(cfgs, cfg{stack: s, askers: 1, servers: 0, respLen: []int{3}, deadline: true, forge: true})
 		}
 		if run.Thorough() {
 			cfgs = append(cfgs,
